@@ -407,6 +407,9 @@ func (s *sched) advance(st step) (now, fired time.Time, ok bool) {
 
 type checker struct {
 	r *mon.Run
+	// dead: a confirmed stall (two watchdog expiries on the same script) was reported for this mode; further
+	// cases of the mode would only wait for the same watchdog again
+	dead map[string]bool
 }
 
 type tickRec struct {
@@ -466,6 +469,7 @@ func (k *checker) tickerCase(c *alignCase) {
 	k.r.Event("watchdog_expiry_reproduced", 1)
 	switch again := k.runTicker(c); again {
 	case stall:
+		k.dead["ticker"] = true
 		k.r.Violation("tick-never-arrives:"+stall+":"+c.Pattern, fmt.Sprintf("interval=%v offset=%v start=%v: %s in two runs of the same deterministic mock-clock script (watchdog %v each)", time.Duration(c.IntervalNs), time.Duration(c.OffsetNs), time.Unix(0, c.StartNs).UTC(), stall, watchdog), map[string]interface{}{"case": c})
 	case "":
 		k.r.Event("watchdog_expiry_not_reproduced", 1) // evaluated by the second run
@@ -615,9 +619,9 @@ func remsOf(t []tickRec) [][2]int64 {
 func TestCheck(t *testing.T) {
 	r := mon.Start(t, "C18")
 	defer r.Finish()
-	r.Rule("cases: (ticker) the real aligned ticker on a mock clock: start instant on a boundary / 1ns either side / mid / arbitrary between 1700 and 2200, interval from a pool of 30 divisors of 86400s between 1ms and 1h (7/8) or 10 other intervals (1/8, judged under either reading of 'multiple', applied consistently), offset zero / low / half / high / interval-1ns / beyond the interval / negative, advancement pattern exact steps / jump over the first deadline / jumps of k.5 intervals and arbitrary lengths later / slow consumer (2-6 deadlines pass undrained) / mixed; (flusher) the real MetricFlusher in aligned mode with 1-3 fake aggregators, exact steps, optionally aggregators kept busy while 1-3 deadlines pass. Non-trivial: non-zero offset or a non-exact pattern; distinct by (mode, interval, offset class, pattern).")
-	r.Assume("tilinna/clock Mock semantics (timer fires at its deadline value; ticker fires once per Add and is re-armed on its own grid); time.Time/UnixNano arithmetic")
-	k := &checker{r: r}
+	r.Rule("cases: (ticker) the real aligned ticker on a mock clock: start instant on a boundary / 1ns either side / mid / arbitrary between 1700 and 2200, interval from a pool of 30 divisors of 86400s between 1ms and 1h (7/8) or 10 other intervals (1/8, judged under either reading of 'multiple', applied consistently), offset zero / low / half / high / interval-1ns / beyond the interval / negative, advancement pattern exact steps / jump over the first deadline / jumps of k.5 intervals and arbitrary lengths later / slow consumer (2-6 deadlines pass undrained) / mixed; (flusher) the real MetricFlusher in aligned mode with 1-3 fake aggregators and 0-2 capturing backends, exact steps, optionally aggregators kept busy while 1-3 deadlines pass; half of the flusher cases start the mock clock at the real now (the clock the flusher reads at start-up) a chosen lead before a boundary (1ns / under 1/1000 / under 1/10 / mid / over 9/10 of the interval / interval-1ns / a full interval; the offset is derived from it, the absolute instant is the only thing not fixed by the seed); (config) random command line / environment / toml / yaml / mixed configurations of flush-aligned, flush-interval (21 values, three spellings, or not given) and flush-offset (not given / zero / sub-second / whole seconds below the interval / below / beyond the interval / negative) through the real setupConfiguration()+constructServer() of cmd/gostatsd, then the real flusher built from exactly the constructed server's fields, driven as above and judged against the configured text (README defaults: interval 1s, no offset). Non-trivial: non-zero offset or a non-exact pattern, a start anchored to the real clock, a configuration; distinct by (mode, interval, offset class, pattern), (interval, lead class, pattern, backends), (source kind, sources per key, interval text, offset class, pattern).")
+	r.Assume("tilinna/clock Mock semantics (timer fires at its deadline value; ticker fires once per Add and is re-armed on its own grid); time.Time/UnixNano arithmetic; MetricFlusher.Run is one goroutine (a later NotifyFlush means the earlier tick has been dealt with); pkg/statsd builds its flusher from Server.FlushInterval/FlushOffset/FlushAligned (createStandaloneSink cannot be run on a mock clock: RunWithCustomSocket takes no clock from its context)")
+	k := &checker{r: r, dead: map[string]bool{}}
 
 	if p := r.ReplayPayload(); p != nil {
 		var w struct {
@@ -644,15 +648,17 @@ func TestCheck(t *testing.T) {
 	nFlusher := r.N(500, 50000)
 	for i := 0; i < nTicker; i++ {
 		k.tickerCase(genCase(rng, "ticker"))
-		if r.Violations() > 8 {
+		if r.Violations() > 8 || k.dead["ticker"] {
 			break
 		}
 	}
 	for i := 0; i < nFlusher; i++ {
 		k.flusherCase(genCase(rng, "flusher"))
-		if r.Violations() > 12 {
+		if r.Violations() > 12 || k.dead["flusher"] {
 			break
 		}
 	}
-	configPhase(t, r, k)
+	if !k.dead["flusher"] {
+		configPhase(t, r, k)
+	}
 }
